@@ -331,11 +331,12 @@ impl Database {
             // Run recovery through recuperator
             recuperator.run_recovery(&analysis).map_err(box_err)?;
 
-            // Truncate WAL
-            pager.write().truncate_wal().map_err(box_err)?;
-
             // Commit recovery transaction
             tx_ctx.commit_transaction().map_err(box_err)?;
+
+            // Checkpoint: what recovery rebuilt exists only in the page cache so far. Truncating the log without
+            // writing those pages first lost every logged change if the process died again before the next checkpoint.
+            pager.write().flush().map_err(box_err)?;
 
             Ok(())
         })?;
